@@ -8,7 +8,7 @@ RULE = ("every fixture / corpus / generated program plus 15 hand-written edge pr
         "lies inside the source and on character boundaries; generated libraries that round-trip through YAML text (incl. fields naming "
         "undefined structs and odd deprecation formats such as %0, %99999999999999999999, lone %) against programs that read, call and "
         "assign their paths; hostile-but-loadable libraries through the real binary (cyclic / dangling / 400-deep Roblox class hierarchies, struct "
-        "cycles through fields and wildcards): the process must neither panic nor overflow its stack; Deprecated::try_instead vs the Lean model; non-trivial = a case that produced diagnostics or used a generated library")
+        "cycles through fields and wildcards): the process must neither panic nor overflow its stack; Deprecated::try_instead vs the Lean model; inputs that are long in one dimension (64-term operator chains in library-call arguments, wide tables, many locals) must be linted within a minute; non-trivial = a case that produced diagnostics or used a generated library")
 
 
 def body(ctx):
@@ -16,6 +16,7 @@ def body(ctx):
     outdir, meta = ctx.harness("c11", n)
     ctx.correspond(outdir, nontrivial_tag=lambda t: True)
     hostile_libraries(ctx)
+    big_inputs(ctx)
     ctx.notes.append(f"diagnostics whose names and ranges were checked: {ctx.stats.get('diagnostics_checked', 0)}; "
                      f"generated libraries with a dangling struct reference: {ctx.stats.get('library_with_dangling_struct_reference', 0)}; "
                      f"program x dialect pairs that do not parse (skipped): {ctx.stats.get('does_not_parse_under_this_dialect', 0)}")
@@ -63,6 +64,44 @@ def hostile_libraries(ctx):
                               f"then linting crashes (exit status {rc})",
                               f"directory: {d}\nroblox.yml:\n{text[:600]}\nprog.lua:\n{HOSTILE_PROGRAM}\nstyle: {style}\nexit status: {rc}\nstderr (tail):\n{err[-600:]}")
     ctx.stats["hostile_library_runs"] = 2 * len(HOSTILE_LIBS)
+
+
+def big_inputs(ctx):
+    """`checking completes`: inputs that are long in one dimension (64-term operator chains of constants in library-call
+    arguments, concatenation chains, wide tables, many locals, long argument lists) are linted within a minute — they take
+    milliseconds; an analysis that re-evaluates sub-expressions doubles with every term"""
+    import subprocess
+    d = os.path.join(ctx.workdir, "big")
+    os.makedirs(d, exist_ok=True)
+    cli.write_config(d)
+    terms = [str(i + 1) for i in range(64)]
+    files = {
+        "sum_chain.lua": "print(math.floor(" + " + ".join(terms) + "))\n",
+        "mixed_chain.lua": "local t = {}\nprint(math.max(" + " * ".join(terms[:32]) + " - #t / 2, " + " - ".join(terms) + "))\n",
+        "concat_chain.lua": "print(string.rep(" + " .. ".join(f'\"s{i}\"' for i in range(64)) + ", 2))\n",
+        "paren_chain.lua": "print(math.abs(" + "(" * 30 + "1" + "".join(f" + {i})" for i in range(30)) + "))\n",
+        "wide_table.lua": "local t = { " + ", ".join(f"k{i} = {i}" for i in range(2000)) + " }\nprint(t)\n",
+        "many_locals.lua": "".join(f"local v{i} = {i}\n" for i in range(180)) + "print(" + ", ".join(f"v{i}" for i in range(180)) + ")\n",
+        "many_arguments.lua": "print(select(" + ", ".join(terms * 8) + "))\n",
+        "comparison_chain.lua": "if " + " and ".join(f"x{i} == {i}" for i in range(64)) + " then end\n",
+    }
+    for name, src in files.items():
+        with open(os.path.join(d, name), "w") as fh:
+            fh.write(src)
+        try:
+            rc, out, err = cli.run_selene(["--display-style", "json2", "--num-threads", "1", name], d, timeout=60)
+        except subprocess.TimeoutExpired:
+            ctx.evaluations += 1
+            ctx.violation(f"implementation violates the specification: [C11] checking {name} ({len(src)} bytes) does not complete within 60 seconds",
+                          f"directory: {d}\nfile: {name}\nsource (head): {src[:300]}")
+            continue
+        ctx.evaluations += 1
+        diags, summary, bad = cli.parse_json_lines(out)
+        if summary is None or "panicked" in err or rc not in (0, 1):
+            ctx.violation(f"implementation violates the specification: [C11] checking {name} fails (exit status {rc})",
+                          f"directory: {d}\nfile: {name}\nstderr (tail): {err[-500:]}")
+        else:
+            ctx.nontrivial.add(("big", name))
 
 
 def check(ctx):
